@@ -33,7 +33,7 @@ BOUNDED = [
         "script": "replay/c16_native.py",
         "args_quick": ["--len", "4"],
         "args_thorough": ["--len", "6"],
-        "bound": "every string of length <= 4 (thorough 6) over the 10-symbol alphabet ` \" ' [ ] . A b _ 1; 15x15 cross-class equality/hash matrix; 10 spelling pairs x dialects through LineageRunner",
+        "bound": "every string of length <= 4 (thorough 6) over the 10-symbol alphabet ` \" ' [ ] . A b _ 1; 15x15 cross-class equality/hash matrix; 10 spelling pairs x dialects through LineageRunner; three-part names with 1-3 quoted parts x 3 quote styles; quoted mixed-case aliases (table, derived table, join, CTE reference) used as qualifiers x 3 quote styles",
     }
 ]
 LEVEL_TEXT = (
